@@ -1,6 +1,6 @@
 PROPERTY = 'C23'
 LEVEL = 'proof'
-VERUS = ['verus/C23.rs']
+VERUS = ['verus/C23.rs', 'verus/C23_execute.rs']
 TRUSTED = [
     'Verus 0.2026.09.13 + bundled Z3; vstd',
     'carrier Pubkey{hi, lo: u128} (faithful 32-byte value, structural equality); carrier ActionHeader{action_state, owner, id} (full field list of the repo struct compared on every run, R11); enum ActionState transcribed (variant list compared each run)',
@@ -11,13 +11,13 @@ TRUSTED = [
 UNVERIFIED = [
     'escrow always goes home (every escrowed token and the unused execution fee returned to the owner; a failed execution cancels and returns escrow without touching any market): token transfers / CPIs inside Anchor contexts (Close::process implementations, execute_* ops), outside any function contract within reach here',
     'only_role(expected_keeper_role()) itself (role membership: C18) and the per-action overrides of skip_completion_check_for_keeper (only CloseGlvShift overrides it; located by text on every run)',
-    'that every execute_* operation calls header.completed()/cancelled() exactly on the success / soft-failure paths: located by text (ops/*.rs), not proved',
+    'the executors of deposits, withdrawals and shifts ARE under contract as whole handlers (verus/C23_execute.rs): tokens in, the operation, then EITHER completed (withdrawal: plus the payout of the returned amounts) OR cancelled + the escrowed tokens back, the execution fee last - as a ghost trace of steps; each step (token CPIs, the market operation) is ONE assumed call that appends to the trace or fails; the order and GLV executors (execute_order.rs, glv/*.rs: same pattern, more accounts) are located by text only',
     'native replay exists only for ActionState::{completed, cancelled} (public items of gmsol-utils: all three states, exhaustive); the ActionHeader methods and Close::preprocess are items of an Anchor program crate: a failed obligation there is reported with the verifier output and no-failing-input-found',
 ]
 ASSUMPTIONS = []
 MANIFEST = dict(engine='verus',
-    technique='Verus contracts on ActionState::{completed, cancelled, is_pending, is_completed_or_cancelled}, ActionHeader::{action_state, set_action_state, completed, cancelled} and the trait-default method Close::preprocess, extracted from /repo each run',
-    text='Deductive proof, unbounded over all header states (every u8 state code) and callers: completed()/cancelled() succeed exactly from Pending, move to Completed/Cancelled, and fail without any change from a terminal or corrupt state (a terminal state is never left; each action completes or cancels at most once); Close::preprocess returns true only for the owner, and lets a non-owner proceed only with the keeper role and -- unless the action type opts out -- only for completed or cancelled actions, so a pending action can be closed only by its owner. Escrow-return clauses are not covered (listed).',
+    technique='(executors: Verus contracts on unchecked_execute_deposit / _withdrawal / _shift as whole handlers with a ghost trace of steps) Verus contracts on ActionState::{completed, cancelled, is_pending, is_completed_or_cancelled}, ActionHeader::{action_state, set_action_state, completed, cancelled} and the trait-default method Close::preprocess, extracted from /repo each run',
+    text='Executors (deposit, withdrawal, shift): a successful run takes the tokens in, runs the operation and then marks the action COMPLETED exactly when the operation went through (a withdrawal then pays out the returned amounts), or marks it CANCELLED and sends the escrowed tokens back exactly when it failed softly - never both, never neither - and settles the execution fee last; it can only start from a pending action. Deductive proof, unbounded over all header states (every u8 state code) and callers: completed()/cancelled() succeed exactly from Pending, move to Completed/Cancelled, and fail without any change from a terminal or corrupt state (a terminal state is never left; each action completes or cancels at most once); Close::preprocess returns true only for the owner, and lets a non-owner proceed only with the keeper role and -- unless the action type opts out -- only for completed or cancelled actions, so a pending action can be closed only by its owner. Escrow-return clauses are not covered (listed).',
     note='Trusted: Verus+Z3, carriers, num_enum glue. Escrow flows and execute_* wiring are listed as unverified.')
 
 
